@@ -30,7 +30,7 @@ BOUNDS = {
     "quick": "stub change detector returning any changepoint list 0 < c1 < ... < ck < n (symbolic integers, k<=3), n<=6, "
              "user statistic returning one free real per segment, symbolic bounds lower <= upper; real PELT / MovingWindow / "
              "SeededBinarySegmentation with table scorers inside, n<=4",
-    "thorough": "stub: n<=7, k<=3; real inner detectors n<=5",
+    "thorough": "stub: n<=8, k<=4; real inner detectors n<=5 (MovingWindow 6)",
 }
 STUBS = ["StubChangeDetector: user-defined ChangeDetector returning the given changepoints",
          "stat callable: one free real per (first row, last row) of the segment it is handed (X carries its row numbers)",
@@ -232,7 +232,7 @@ def jobs(tier, mode="c17"):
         stub = [(2, 1), (3, 2), (4, 2), (5, 3), (6, 2)]
         real = [("PELT", 4), ("MovingWindow", 4), ("SBS", 4)]
     else:
-        stub = [(n, k) for n in range(2, 8) for k in range(0, 4) if k < n]
+        stub = [(n, k) for n in range(2, 9) for k in range(0, 5) if k < n]
         real = [("PELT", 4), ("PELT", 5), ("MovingWindow", 5), ("MovingWindow", 6), ("SBS", 4), ("SBS", 5)]
     for (n, k) in stub:
         out.append(Job(M, "make_stub", dict(n=n, k=k, mode=mode), split=n >= 5))
